@@ -321,14 +321,17 @@ class C08(Check):
                 try:
                     calc = Chi2Calculator(fixed.copy(), mc.copy(), [list(r) for r in restr])
                     buf = order[0].copy()        # ONE array object, overwritten in place before each evaluation of the second half
+                    held = []                    # the values AS RETURNED, kept by the caller (a scan) and read again at the end
                     for step, cfg in enumerate(order):
                         if step >= len(order) // 2:      # second half of the sequence: always the same object
                             buf[:] = cfg
-                            got = float(calc(buf))
+                            raw = calc(buf)
                         else:
-                            got = float(calc(cfg.copy()))
+                            raw = calc(cfg.copy())
+                        got = float(raw)
                         sr2, sn2, k2, _ = ref_parts(fixed, cfg, restr)
                         w2 = (sr2 + sn2) * 1.1 ** k2
+                        held.append((step, raw, w2))
                         R.case(dict(d, step=step), nontrivial=True, cls=tag + '/sequence')
                         if not np.isfinite(got) or got < 0:
                             R.violation(f'chi2/{path}/sequence/negative-or-non-finite', d, f'step {step}: {got!r}')
@@ -337,6 +340,12 @@ class C08(Check):
                             R.violation(f'chi2/{path}/sequence/differs-from-reference', d,
                                         f'step {step} of one calculator: {got!r} vs reference {w2!r}')
                             break
+                    else:
+                        for step, raw, w2 in held:
+                            if abs(float(raw) - w2) > TOL_REF * max(abs(w2), 1e-18):
+                                R.violation(f'chi2/{path}/sequence/value-returned-earlier-changed-by-a-later-evaluation', d,
+                                            f'value returned at step {step} now reads {float(raw)!r}, reference {w2!r}')
+                                break
                 except Exception as exc:
                     R.violation(f'chi2/{path}/exception', d, repr(exc))
             # -- the same inputs in other legal forms: integer-typed coordinate arrays at construction (then a
